@@ -8,12 +8,14 @@ implementation refines this spec, and that is what the differential run checks: 
 of a request — pages of a cursor walk, limits, sorts, `return_hits`, execution strategies,
 explain/profile, rescore — must return the same aggregations and suggestions).
 
-Mechanism (`SL.Post.search`): the cursor test sits in the same `accept` step that feeds the
-collectors, so aggregations are taken over `afterCursor … matched`.  Proved: without a cursor the
-mechanism's aggregations equal the spec's and depend on nothing else in the request
-(`mech_aggs_eq_spec_partial`, `mech_aggs_paging_partial`); with a cursor they are the
-aggregations of the documents *after* the cursor (`mech_aggs_with_cursor`), negative witness
-`aggs_cursor_page_witness`.
+Mechanism (`SL.Post.search`): since /repo 5e540f6 the aggregation collectors are fed *before* the
+cursor test of the `accept` step, so the aggregations are taken over all matching documents.
+Proved at full strength: the mechanism's aggregations equal the spec's for every request, cursor
+pages included (`mech_aggs_eq_spec`), and depend on nothing else in the request
+(`mech_aggs_paging_independent`); `total_hits` still counts from the cursor on
+(`mech_total_after_cursor`).  The old accept-step order is kept as `legacyAggSearch`:
+`legacy_aggs_with_cursor`, `legacy_aggs_eq_spec_partial` (only without a cursor),
+`legacy_aggs_cursor_page_witness` next to `aggs_cursor_page_repaired`.
 
 Suggestions are computed from the term dictionary and the suggest request alone
 (`execute_suggest` takes nothing from the search); they are not part of this model and are
@@ -68,33 +70,49 @@ theorem seen_grp (o : ScoreOps S) (r : Req S) (h : Hit S) : (seen o r h).grp = h
 theorem seen_flds (o : ScoreOps S) (r : Req S) (h : Hit S) : (seen o r h).flds = h.flds := by
   unfold seen; split <;> rfl
 
-/-- what the code aggregates: the documents that pass the cursor test -/
-theorem mech_aggs_with_cursor (o : ScoreOps S) (r : Req S) (matched : List (Hit S)) :
-    (search o r matched).aggTerms =
-      aggTerms (afterCursor (klt o r.plan) r.cursor (matched.map (seen o r))) ∧
-    (search o r matched).aggCount =
-      aggCount r.aggField (afterCursor (klt o r.plan) r.cursor (matched.map (seen o r))) := by
-  simp [search]
-
-/-- `…_partial`: the full statement is `(search o r m).aggTerms = (Spec.search o r m).aggTerms`
-for every request; it holds **for requests without a cursor** -/
-theorem mech_aggs_eq_spec_partial (o : ScoreOps S) (r : Req S) (matched : List (Hit S))
-    (hc : r.cursor = none) :
+/-- **the code's aggregations are the statement's**, for every request — with or without a cursor
+(full statement since /repo 5e540f6: the collectors are fed before the cursor test) -/
+theorem mech_aggs_eq_spec (o : ScoreOps S) (r : Req S) (matched : List (Hit S)) :
     (search o r matched).aggTerms = (Spec.search o r matched).aggTerms ∧
     (search o r matched).aggCount = (Spec.search o r matched).aggCount := by
-  simp only [search, Spec.search, hc, afterCursor]
+  simp only [search, Spec.search]
   exact ⟨aggTerms_map (seen_grp o r) matched, aggCount_map (seen_flds o r) _ matched⟩
 
-/-- hence, cursor aside, nothing in the request (limit, sort, `return_hits`, explain, profile,
+/-- hence nothing in the request (cursor/page, limit, sort, `return_hits`, explain, profile,
 rescore, collapse, candidate size, segment layout parameter) influences the aggregations -/
-theorem mech_aggs_paging_partial (o : ScoreOps S) (r r' : Req S) (matched : List (Hit S))
-    (hc : r.cursor = none) (hc' : r'.cursor = none) (hf : r.aggField = r'.aggField) :
+theorem mech_aggs_paging_independent (o : ScoreOps S) (r r' : Req S) (matched : List (Hit S))
+    (hf : r.aggField = r'.aggField) :
     (search o r matched).aggTerms = (search o r' matched).aggTerms ∧
     (search o r matched).aggCount = (search o r' matched).aggCount := by
-  obtain ⟨h1, h2⟩ := mech_aggs_eq_spec_partial o r matched hc
-  obtain ⟨h3, h4⟩ := mech_aggs_eq_spec_partial o r' matched hc'
+  obtain ⟨h1, h2⟩ := mech_aggs_eq_spec o r matched
+  obtain ⟨h3, h4⟩ := mech_aggs_eq_spec o r' matched
   obtain ⟨h5, h6⟩ := aggs_paging_independent o r r' matched hf
   exact ⟨by rw [h1, h3, h5], by rw [h2, h4, h6]⟩
+
+/-- while `total_hits` still counts only the documents after the cursor (plus those returned on
+earlier pages) — unchanged by 5e540f6 -/
+theorem mech_total_after_cursor (o : ScoreOps S) (r : Req S) (matched : List (Hit S)) :
+    (search o r matched).total =
+      (afterCursor (klt o r.plan) r.cursor (matched.map (seen o r))).length + returned r.cursor := by
+  simp [search]
+
+/-! ### before /repo 5e540f6 -/
+
+/-- what the old code aggregated: the documents that pass the cursor test -/
+theorem legacy_aggs_with_cursor (o : ScoreOps S) (r : Req S) (matched : List (Hit S)) :
+    (legacyAggSearch o r matched).aggTerms =
+      aggTerms (afterCursor (klt o r.plan) r.cursor (matched.map (seen o r))) ∧
+    (legacyAggSearch o r matched).aggCount =
+      aggCount r.aggField (afterCursor (klt o r.plan) r.cursor (matched.map (seen o r))) := by
+  simp [legacyAggSearch]
+
+/-- the old code's aggregations equalled the statement's only **for requests without a cursor** -/
+theorem legacy_aggs_eq_spec_partial (o : ScoreOps S) (r : Req S) (matched : List (Hit S))
+    (hc : r.cursor = none) :
+    (legacyAggSearch o r matched).aggTerms = (Spec.search o r matched).aggTerms ∧
+    (legacyAggSearch o r matched).aggCount = (Spec.search o r matched).aggCount := by
+  simp only [legacyAggSearch, Spec.search, hc, afterCursor]
+  exact ⟨aggTerms_map (seen_grp o r) matched, aggCount_map (seen_flds o r) _ matched⟩
 
 /-! ### non-vacuity and the negative witness -/
 
@@ -123,11 +141,18 @@ private def page2 : Req Int := { page1 with cursor := some (mk 1 3 0, 2) }
 example : (search intOps page1 docs).aggTerms = [(0, 2), (1, 2)] ∧ (search intOps page1 docs).aggCount = 4 ∧
     (search intOps page1 docs).next = some (mk 1 3 0) := by decide
 
-/-- **negative witness**: on the second page of the walk the terms aggregation has lost the
-two documents of the first page (spec: unchanged) -/
-theorem aggs_cursor_page_witness :
-    (search intOps page2 docs).aggTerms = [(1, 2)] ∧ (search intOps page2 docs).aggCount = 2 ∧
+/-- **legacy negative witness** (before /repo 5e540f6): on the second page of the walk the terms
+aggregation had lost the two documents of the first page (spec: unchanged) -/
+theorem legacy_aggs_cursor_page_witness :
+    (legacyAggSearch intOps page2 docs).aggTerms = [(1, 2)] ∧ (legacyAggSearch intOps page2 docs).aggCount = 2 ∧
     (Spec.search intOps page2 docs).aggTerms = [(0, 2), (1, 2)] ∧ (Spec.search intOps page2 docs).aggCount = 4 := by
+  decide
+
+/-- the same page on the current model: aggregations of the whole result set, `total_hits` of
+the documents after the cursor plus the two returned before -/
+theorem aggs_cursor_page_repaired :
+    (search intOps page2 docs).aggTerms = [(0, 2), (1, 2)] ∧ (search intOps page2 docs).aggCount = 4 ∧
+    (search intOps page2 docs).total = 4 := by
   decide
 
 end SL.Post
